@@ -368,15 +368,15 @@ def r5_carriers(ctx):
         raise AnchorMissing('carriers_to_spectral_information: factory call')
     src = {'pch': 'tx_power', 'roll_off': 'roll_off', 'baud_rate': 'baud_rate', 'delta_pdb_per_channel': 'delta_pdb',
            'slot_width': 'slot_width', 'tx_osnr': 'tx_osnr', 'tx_power': 'tx_power', 'label': 'label'}
-    from .common import named_args
+    from .common import named_args, resolved
 
     class _K:
         def __init__(self, arg, value):
             self.arg, self.value = arg, value
     for k in [_K(a, v) for a, v in named_args(call[0]).items()]:
         v = k.value
-        dv = defs.get(v.id, []) if isinstance(v, ast.Name) else []
-        e = dv[0][1] if len(dv) == 1 else None
+        e = resolved(defs, v)
+        e = None if isinstance(e, ast.Name) else e
         if k.arg == 'frequency':
             ok = e is not None and ast.unparse(e) in (f'list({d}.keys())', f'list({d})')
         else:
